@@ -251,6 +251,15 @@ pub fn spill_ref_before_anchor(w: &[Input], a: &Analysis) -> bool {
     false
 }
 
+/// a dynamic anchor lies on a dependency cycle that runs through potential spill areas (it reads, directly
+/// or not, a cell of its own spill or of a spill that depends on it): phase 1 of `evaluate` exhausts its
+/// restart bound (n*n+1) and falls through to phase 2 with the anchors in whatever order the last restart
+/// left, so extents stored by the PREVIOUS evaluate leak into the values (evaluate is not idempotent)
+pub fn circular_spill_dependency(w: &[Input], a: &Analysis) -> bool {
+    let oc = a.on_cycle();
+    (0..w.len()).any(|i| oc[i] && a.extent[i] != (1, 1))
+}
+
 /// F33, tight: a dynamic anchor P depends THROUGH A SCALAR FORMULA IN BETWEEN on a dynamic anchor Q that
 /// comes LATER in (sheet,row,column) order (reading a cell of a potential spill area counts as reading
 /// its anchor): phase 1 of `evaluate` visits P first, the scalar formula is evaluated on demand and
